@@ -11,7 +11,8 @@ Inductive c06case :=
 | PortDtype (mask : Z) (out : res Z)                 (* get_port_dtype(mask).itemsize * 8 *)
 | PortMem (k : nat) (big : bool) (v : Z)             (* one value of a k-byte port, full mask: *)
           (mem_le mem_be : list Z)                    (* the bytes NumPy holds for it in a '<' and in a '>' array *)
-          (row_le row_be : list Z).                   (* port_to_line_data's row for either array *)
+          (row_le row_be : list Z)                    (* port_to_line_data's row for either array *)
+| PortsShort (nrows nmasks : Z) (raised : bool).      (* from_ports over nrows ports given nmasks masks: one waveform per port, so too few masks cannot be served *)
 
 Definition width_of_mask (m : Z) : option nat :=
   if (0 <=? m) && (m <? 256) then Some 8%nat else if (0 <=? m) && (m <? 65536) then Some 16%nat
@@ -57,6 +58,7 @@ Definition c06_spec_ok (c : c06case) : bool :=
       list_eqb Z.eqb mem_le (le_bytes k v) && list_eqb Z.eqb mem_be (be_bytes k v)
       && list_eqb Z.eqb row_le (row_z (pipeline_row big k v))
       && list_eqb Z.eqb row_be (row_z (pipeline_row big k (be_value mem_be)))
+  | PortsShort nrows nmasks raised => if nmasks <? nrows then raised else true
   | PortDtype mask out =>
       match width_of_mask mask, out with
       | Some w, Ok b => b =? Z.of_nat w
